@@ -14,6 +14,8 @@ permissive mode, tied to the Rust typechecker by the differential run of `./chec
 environment, both modes, plus the impossible-policy flag).
 
 FULL STATEMENT: `typeOf_sound` below (a `def … : Prop`, all expressions, both modes); `PermissiveSoundFull` is its permissive half.
+BOTH HALVES ARE PROVED: strict `typeOf_sound_strict`, permissive `permissive_sound_full` (premises: distinct record-literal keys,
+slots linked in the environment, and — permissive only — `SchemaND`).
 
 PROVED (0): `typeOf_sound_strict` — THE FULL STATEMENT WITH `m := .strict`, for every expression all of whose slots have a
 type in the environment (`SlotsLinked`); it is (1) plus `inFragment2_of` (distinct record keys + linked slots ⇒ fragment).
@@ -55,14 +57,27 @@ PROVED (3), PERMISSIVE MODE WITH NON-FLAT JOINS: `typeOf_sound_permissive_partia
     `impossible_policy_never_satisfied_static_permissive`; examples `exJoinEq`, `exSetMixed`, `exPermissivePolicy` are accepted
     by permissive mode, rejected by strict mode, and evaluate to booleans on the conformant `ex2World`.
   No permissive typing rule of the model was found unsound.
-NOT proved (`PermissiveSoundFull`, a `def … : Prop`, is the full permissive statement): `has` / `.` / `hasTag` / `getTag` / `in` /
-`is` / `<` applied to an operand whose type is an entity-type union or a joined record type (for example
-`(if c then principal else resource).name` — needs `lubAttrs` of a union against the store), joins whose `then` branch is an
-attribute access, a record literal or itself a non-flat join (needs "typeOf yields distinct record keys", which needs that of
-the schema's types); a slot in an environment that has no type for it (Rust types it `AnyEntity`; such a slot does not occur:
-`link_request_env` gives every slot of the policy a type; see `SlotsBound` in the full statement);
-record literals with duplicate keys (not representable in Rust).  These are covered by the differential run against Rust
-and by the implementation-level soundness search of harness/src/c03.rs only.
+PROVED (4), THE FULL PERMISSIVE STATEMENT: `permissive_sound_full : PermissiveSoundFull` (= `typeOf_sound_permissive`;
+    induction `soundPF`, Lemmas/TypecheckPFull.lean; rules on arbitrary operand types, Lemmas/TypecheckPUnion.lean): EVERY expression
+    with distinct record-literal keys and linked slots, no restriction on the static types of sub-expressions:
+      * joins (`if`, set literals) of arbitrary types, also when a branch / element is an attribute access, a record literal or a join;
+      * `has` / `.` on an operand typed with an entity-type union (`(if c then principal else resource).name`) or a joined (open)
+        record: `lubAttrs_find_mem` — an attribute of `lubAttrs s l` is an attribute of every member type, at least as required, with a
+        subtype, so a `StoreConforms` entity of ANY member type respects it; `mayHaveAttr_union_false` for the `False` typing of `has`;
+      * `hasTag` / `getTag` on a union (`tagTypes` of the members, joined by `lubAll`), `in` on unions / `AnyEntity` / sets of these /
+        `Set<Never>` (`anyDescendantOf` false ⇒ no member pair is related), `is` on unions and `AnyEntity`, `<` `<=`.
+    Type invariant (`typeOf_ndTy`, `OkTy`): the types `typeOf` yields have distinct record keys everywhere inside and `Never` only as
+    the element type of a set (so `Never`-typed expressions — whose capabilities would be unconstrained — do not arise).
+    Additional premise `SchemaND s`: the record types the schema declares (entity shapes, tag types, contexts, nested) have distinct
+    keys.  Rust's `Attributes` is a `BTreeMap`, so every `ValidatorSchema` satisfies it; the MODEL represents attributes as lists, and
+    with a duplicate key `lubAttrsPermissive` may keep an entry `Attrs.find?` does not see (`instance_of_lub`, left half).
+  Policy level, no fragment: `permissive_validation_sound`, `permissive_validation_sound_static`,
+    `impossible_policy_never_satisfied_permissive`; example `exUnionCond` (outside `InFragmentP`, rejected by strict mode) is accepted,
+    evaluates to `true` on `ex2World`, and instantiates every premise (`ex2_schemaND`).
+  No permissive typing rule of the model was found unsound.
+NOT covered by (4): a slot in an environment that has no type for it (Rust types it `AnyEntity`; such a slot does not occur:
+`link_request_env` gives every slot of the policy a type; see `SlotsBound` / `SlotsLinked`); record literals with duplicate keys
+(not representable in Rust: `Expr::record` rejects them); `unknown` (outside the model).
 `strict_implies_permissive` (full statement: a `def … : Prop`) is PROVED as `strict_implies_permissive_strict` — with the
 SAME type and capabilities in both modes — for every expression of the strict fragment `InFragment2` (every construct), under
 `SchemaWF3` (the record types the schema declares are closed with distinct keys; the action table is a map), and at policy
